@@ -1,7 +1,7 @@
 """Driver for the native replay tool (/verif/native, built against /repo with --cfg cicada_verif)."""
 import json, os, select, subprocess, time
 
-BIN = '/verif/build/native/debug/vnative'
+BIN = os.path.join(os.path.dirname(os.path.dirname(os.path.abspath(__file__))), 'build/native/debug/vnative')
 
 class NativeHang(Exception):
     pass
@@ -14,7 +14,8 @@ class Native:
         self.calls = 0
     def start(self):
         self.p = subprocess.Popen([self.binary], stdin=subprocess.PIPE, stdout=subprocess.PIPE, stderr=subprocess.DEVNULL,
-                                  cwd=self.cwd, env=self.env)
+                                  cwd=self.cwd, env=self.env, bufsize=0)
+        self.buf = b''
     def close(self):
         if self.p is not None:
             try: self.p.kill()
@@ -30,13 +31,24 @@ class Native:
             self.p.stdin.write(line.encode()); self.p.stdin.flush()
         except BrokenPipeError:
             self.close(); return {'crash': 'broken pipe'}
-        r, _, _ = select.select([self.p.stdout], [], [], self.timeout)
-        if not r:
-            self.close()
-            raise NativeHang(name)
-        out = self.p.stdout.readline()
-        if not out:
-            rc = self.p.poll()
-            self.close()
-            return {'crash': rc}
-        return json.loads(out.decode('utf-8', 'replace'))
+        deadline = time.time() + self.timeout
+        fd = self.p.stdout.fileno()
+        while True:
+            nl = self.buf.find(b'\n')
+            if nl >= 0:
+                out = self.buf[:nl]; self.buf = self.buf[nl + 1:]
+                # anything cicada itself prints to stdout is skipped; results carry a marker
+                k = out.find(b'@@RESULT@@')
+                if k >= 0:
+                    return json.loads(out[k + 10:].decode('utf-8', 'replace'))
+                continue
+            r, _, _ = select.select([fd], [], [], max(0.0, deadline - time.time()))
+            if not r:
+                self.close()
+                raise NativeHang(name)
+            chunk = os.read(fd, 65536)
+            if not chunk:
+                rc = self.p.poll()
+                self.close()
+                return {'crash': rc}
+            self.buf += chunk
